@@ -145,7 +145,7 @@ int disasm_8051(
         break;
       case OP_PAGE:
         snprintf(temp, sizeof(temp), "0x%04x",
-          (address & 0xf800) |
+          ((address + 2) & 0xf800) |
           READ_RAM(address + count) |
           (table_8051[opcode].range << 8));
         strcat(instruction, temp);
